@@ -417,18 +417,24 @@ class SArr:
     __hash__ = None
 
     def __iadd__(self, o):
-        r = self + o
+        old = SArr(self._shape, self._get, self.sort)       # the value before the update (the new getter must not refer to itself)
+        r = old + o
         self._get, self.sort = r._get, r.sort
+        self.inplace_writes = getattr(self, "inplace_writes", 0) + 1
         return self
 
     def __isub__(self, o):
-        r = self - o
+        old = SArr(self._shape, self._get, self.sort)       # the value before the update (the new getter must not refer to itself)
+        r = old - o
         self._get, self.sort = r._get, r.sort
+        self.inplace_writes = getattr(self, "inplace_writes", 0) + 1
         return self
 
     def __imul__(self, o):
-        r = self * o
+        old = SArr(self._shape, self._get, self.sort)       # the value before the update (the new getter must not refer to itself)
+        r = old * o
         self._get, self.sort = r._get, r.sort
+        self.inplace_writes = getattr(self, "inplace_writes", 0) + 1
         return self
 
     def __bool__(self):
